@@ -125,7 +125,8 @@ LinkEdges(p, t) ==
 DepOuts(p, t) == UNION {RefOuts(p, p.targets[d]) : d \in Rng(t.deps)}
 TargetEdges(p, t) ==
     CASE IsBuild(t) -> CompileEdges(p, t) \cup LinkEdges(p, t)
-      [] t.kind = "custom" -> {E("CUSTOM_COMMAND", <<Src(t, "input")>>, <<"@tool">> \o SetToSeq(DepOuts(p, t)), <<>>,
+      [] t.kind = "custom" -> {E("CUSTOM_COMMAND", <<Src(t, "input")>> \o SetToSeq(UNION {RefOuts(p, p.targets[g]) : g \in Rng(t.gen)}),
+                                 <<"@tool">> \o SetToSeq(DepOuts(p, t)), <<>>,
                                  [k \in DOMAIN t.outs |-> Join(OutDir(p, t), t.outs[k])])}
       [] t.kind = "run" -> {E("phony", <<"meson-internal__" \o RunName(t)>>, <<>>, <<>>, <<RunName(t)>>),
                             E("CUSTOM_COMMAND", <<>>, <<"@tool">> \o SetToSeq(DepOuts(p, t)), <<>>,
